@@ -182,7 +182,7 @@ impl Prop for C18 {
 
     fn lanes(tier: Tier) -> Vec<Lane> {
         vec![Lane::new("main", tier.pick(4_000_000, 60_000_000))
-            .cap(tier.pick(60, 600))
+            .cap(tier.pick(150, 1200))
             .floor(tier.pick(20_000, 1_000_000))]
     }
 
